@@ -277,4 +277,9 @@ theorem firstLe_strict {α : Type} [LinearOrder α] (u : α) : ∀ (ps : List α
       exact hq
 
 
+theorem bern_le_one (gamma : ℝ) (us : List ℝ) (h : ¬ 1 < gamma) : bernoulliNegExp gamma us = coinLoop gamma us 1 := by
+  show coinOuter (99999 + 1) gamma us = _
+  rw [coinOuter]
+  simp [h]
+
 end DPL.RangeL
